@@ -28,7 +28,16 @@ LeafSet == { [k |-> "true"], [k |-> "name", s |-> Cp("x")], [k |-> "print"], [k 
              [k |-> "perm", chk |-> "eq", m |-> 420], [k |-> "size", cmp |-> "gt", n |-> <<1, 0>>, u |-> "k"] }
 Seeds == LeafSet \cup {NNot(a) : a \in {[k |-> "print"], [k |-> "true"]}} \cup {NPrec([k |-> "print0"])}
 
-Init == IF Mode = "trees" THEN vTree \in LeafSet ELSE vTree = [k |-> "units"]
+\* ---- Mode "formats": every element list of length <= 3 over 7 element kinds (the public types also allow an
+\* empty literal, adjacent literals, a newline that is not last), as -printf alone and under / beside other nodes
+FmtElems == << EFld("p"), EEsc("n"), ELit(Cp("x")), ELit(<<>>), EAscii(10), EEsc("f"), EEsc("0") >>
+RECURSIVE FmtLists(_)
+FmtLists(n) == IF n = 0 THEN {<<>>} ELSE FmtLists(n - 1) \cup {Append(l, FmtElems[j]) : l \in FmtLists(n - 1), j \in 1..Len(FmtElems)}
+FormatTrees == UNION {{ [k |-> "printf", f |-> l], NNot([k |-> "printf", f |-> l]),
+                        NAnd([k |-> "true"], [k |-> "printf", f |-> l]), NOr([k |-> "printf", f |-> l], [k |-> "print"]),
+                        NList([k |-> "printf", f |-> l], [k |-> "printf", f |-> FNl]) } : l \in FmtLists(3)}
+
+Init == IF Mode = "trees" THEN vTree \in LeafSet ELSE IF Mode = "formats" THEN vTree \in FormatTrees ELSE vTree = [k |-> "units"]
 Next ==
   /\ Mode = "trees"
   /\ TreeSize(vTree) < MaxSize
@@ -38,13 +47,13 @@ Next ==
                                      NList(vTree, x), NList(x, vTree)}
 
 InvTwoDefs ==
-  Mode = "trees" => /\ HasAction(vTree) = HasAction2(vTree)
+  Mode \in {"trees", "formats"} => /\ HasAction(vTree) = HasAction2(vTree)
                     /\ NeedsFramed(vTree) = NeedsFramed2(vTree)
                     \* needing framed output implies containing an action
                     /\ (NeedsFramed(vTree) => HasAction(vTree))
 
 EmitVector ==
-  Mode = "trees" =>
+  Mode \in {"trees", "formats"} =>
     PrintT(ToJson([t |-> vTree, action |-> HasAction(vTree), framed |-> NeedsFramed(vTree)]))
 
 \* ---- unit tables ----
